@@ -2,6 +2,7 @@ SPECIFICATION Spec
 CONSTANTS
  L = 2
  Chains <- Chains2x3
+ Closed <- NoRings
  Grid <- Grid2
  Bundle <- Bundle6
  MaxIter = 5
